@@ -27,9 +27,11 @@ const GOLDEN: &[(&str, &[&str])] = &[
      &["A LCfg R", "A LBlockchain W", "A LMempool W", "C ConsensusThread::produce_block", "R LMempool",
        "C Blockchain::add_blocks_from_mempool", "H LMempool", "C Network::propagate_transaction",
        "R LMempool", "R LBlockchain", "R LCfg"]),
-    // network.rs: the peers write guard is never dropped before the sync request (finding, DESIGN 9 row 18)
+    // network.rs: peers write guard first, peer handshake under it, sync request afterwards (whether the guard is
+    // still alive at that call is the finding of DESIGN 9 row 18 -- deliberately not pinned here, so that a
+    // `drop(peers)` repair does not trip the translator alarm)
     ("saito_core::network::Network::handle_handshake_response",
-     &["A LPeers W", "C Peer::handle_handshake_response", "C Network::request_blockchain_from_peer", "R LPeers"]),
+     &["A LPeers W", "C Peer::handle_handshake_response", "C Network::request_blockchain_from_peer"]),
     ("saito_core::network::Network::request_blockchain_from_peer",
      &["A LCfg R", "A LBlockchain R", "R LBlockchain", "R LCfg"]),
     // peer.rs: configuration read in its own block, then wallet
@@ -38,9 +40,10 @@ const GOLDEN: &[(&str, &[&str])] = &[
     // saitowasm.rs: the gate first
     ("saito_wasm::saitowasm::create_transaction",
      &["A LSaito W", "A LWallet W", "A LCfg R", "A LBlockchain R", "C Transaction::create", "R LBlockchain", "R LCfg", "R LWallet", "R LSaito"]),
-    // saito-rust main.rs: three temporaries of one statement
+    // saito-rust main.rs: wallet guard in its own block; configuration read as a temporary of the Context::new statement,
+    // released at its end; then configuration and blockchain guards to the end of the function
     ("saito_rust::main::run_utxo_to_issuance_converter",
-     &["A LWallet W", "R LWallet", "A LCfg R", "A LCfg R", "A LCfg R", "C Context::new", "R LCfg", "R LCfg", "R LCfg", "A LCfg R", "A LBlockchain W"]),
+     &["A LWallet W", "R LWallet", "A LCfg R", "C Context::new", "R LCfg", "A LCfg R", "A LBlockchain W"]),
 ];
 
 fn matches(e: &Ev, pat: &str, name: &dyn Fn(usize) -> String) -> bool {
